@@ -35,6 +35,15 @@ type KafkaWrapper struct {
 	Details interface{} `json:"details"`
 }
 
+// asSlice is the JSON array behind v, or nil when the field is null (a nil Go slice: array
+// counts outside 0..65535 and elements that were not reached decode to nil).
+func asSlice(v interface{}) []interface{} {
+	if s, ok := v.([]interface{}); ok {
+		return s
+	}
+	return nil
+}
+
 func representRequestHeader(data map[string]interface{}, rep []interface{}) []interface{} {
 	requestHeader, _ := json.Marshal([]api.TableData{
 		{
@@ -439,7 +448,7 @@ func representProduceResponse(data map[string]interface{}) []interface{} {
 				Data:  representMapAsTable(response, fmt.Sprintf(`response.payload.responses[%d]`, i), []string{"partitionResponses"}),
 			})
 
-			for j, _partitionResponse := range response["partitionResponses"].([]interface{}) {
+			for j, _partitionResponse := range asSlice(response["partitionResponses"]) {
 				partitionResponse := _partitionResponse.(map[string]interface{})
 				rep = append(rep, api.SectionData{
 					Type:  api.TABLE,
@@ -546,7 +555,7 @@ func representFetchRequest(data map[string]interface{}) []interface{} {
 		for i, _topic := range topics.([]interface{}) {
 			topic := _topic.(map[string]interface{})
 			topicName := topic["topic"].(string)
-			for j, _partition := range topic["partitions"].([]interface{}) {
+			for j, _partition := range asSlice(topic["partitions"]) {
 				partition := _partition.(map[string]interface{})
 
 				rep = append(rep, api.SectionData{
@@ -608,7 +617,7 @@ func representFetchResponse(data map[string]interface{}) []interface{} {
 			response := _response.(map[string]interface{})
 			topicName := response["topic"].(string)
 
-			for j, _partitionResponse := range response["partitionResponses"].([]interface{}) {
+			for j, _partitionResponse := range asSlice(response["partitionResponses"]) {
 				partitionResponse := _partitionResponse.(map[string]interface{})
 				recordSet := partitionResponse["recordSet"].(map[string]interface{})
 
@@ -689,7 +698,7 @@ func representListOffsetsResponse(data map[string]interface{}) []interface{} {
 	rep = representResponseHeader(data, rep)
 
 	payload := data["payload"].(map[string]interface{})
-	topics, _ := json.Marshal(payload["topics"].([]interface{}))
+	topics, _ := json.Marshal(payload["topics"]) // may be null: an array count outside 0..65535 decodes to nil
 	throttleTimeMs := ""
 	if payload["throttleTimeMs"] != nil {
 		throttleTimeMs = fmt.Sprintf("%d", int(payload["throttleTimeMs"].(float64)))
@@ -846,7 +855,7 @@ func representDeleteTopicsResponse(data map[string]interface{}) []interface{} {
 	rep = representResponseHeader(data, rep)
 
 	payload := data["payload"].(map[string]interface{})
-	responses, _ := json.Marshal(payload["responses"].([]interface{}))
+	responses, _ := json.Marshal(payload["responses"]) // may be null: an array count outside 0..65535 decodes to nil
 	throttleTimeMs := ""
 	if payload["throttleTimeMs"] != nil {
 		throttleTimeMs = fmt.Sprintf("%d", int(payload["throttleTimeMs"].(float64)))
